@@ -185,11 +185,19 @@ func (r *Recorder) Flush() {
 	}
 }
 
+var exitHooks []func()
+
+// OnExit registers a cleanup run after the tests of the process.
+func OnExit(f func()) { exitHooks = append(exitHooks, f) }
+
 // Main is the TestMain body shared by all property packages.
 func Main(m *testing.M, property string) {
 	R().Property = property
 	code := m.Run()
 	R().Flush()
+	for _, f := range exitHooks {
+		f()
+	}
 	os.Exit(code)
 }
 
